@@ -34,6 +34,7 @@ pub mod verif_hooks {
     pub use super::key::ReconKey;
     pub use super::map_queue::MapOperationQueue;
     pub use super::InvalidKey;
+    pub use super::{BackpressureStrategy, MapBackpressure, SupplyBackpressure, ValueBackpressure};
 }
 
 use recon::MapOperationReconEncoder;
